@@ -202,6 +202,48 @@ def priv(obj, name: str, kind: str, index: Optional[int] = None, only: Optional[
     raise IntrospectionError(f"cannot resolve {type(obj).__name__}.{name} ({kind}): {len(hits)} candidates")
 
 
+def template_members(template) -> List[Tuple[str, Any]]:
+    """(member name, member spec) of a Template in wire order, whatever the private container looks like: a name->spec dict, or a
+    sequence of (name, spec) pairs / records holding one str and one spec. Order is cross-checked against the public keys()."""
+    try:
+        d = object.__getattribute__(template, "_template_spec")
+        if isinstance(d, dict):
+            return list(d.items())
+    except Exception:
+        pass
+    note_fallback(f"{type(template).__name__}._template_spec")
+    out: Optional[List[Tuple[str, Any]]] = None
+    for _, v in members(template):
+        cand: Optional[List[Tuple[str, Any]]] = None
+        if isinstance(v, dict) and v and all(isinstance(k, str) and _is_spec_or_entry(x) for k, x in v.items()):
+            cand = list(v.items())
+        elif isinstance(v, (tuple, list)) and v:
+            cand = []
+            for rec in v:
+                parts = list(rec) if isinstance(rec, (tuple, list)) else [x for _, x in members(rec)]
+                names = [x for x in parts if isinstance(x, str)]
+                specs = [x for x in parts if _is_spec_or_entry(x)]
+                if len(names) != 1 or len(specs) != 1:
+                    cand = None
+                    break
+                cand.append((names[0], specs[0]))
+        if cand:
+            if out is not None and [n for n, _ in out] != [n for n, _ in cand]:
+                raise IntrospectionError(f"ambiguous member containers on {type(template).__name__}")
+            out = cand
+    if out is None:
+        raise IntrospectionError(f"cannot resolve the members of {type(template).__name__}")
+    try:
+        keys = list(template.keys())
+        if keys != [n for n, _ in out]:
+            raise IntrospectionError(f"members {[n for n, _ in out]} disagree with keys() {keys}")
+    except IntrospectionError:
+        raise
+    except Exception:
+        pass
+    return out
+
+
 def adapter_child(adapter):
     """The child spec of an ``se.Adapter`` (may be None): known name, else the single slot declared on se.Adapter itself."""
     se = _se()
